@@ -59,7 +59,8 @@ namespace occa {
       // Check if the ring is empty
       if (!entry || !head) {
         const bool ringNeedsFree = needsFree();
-        mutex.unlock();
+        if (threadLock)
+          mutex.unlock();
         return ringNeedsFree;
       }
       ringEntry_t *tail = head->leftRingEntry;
@@ -74,7 +75,9 @@ namespace occa {
       // The caller frees the owner when the last reference is gone: decide
       // that while no other thread can change the ring
       const bool ringNeedsFree = needsFree();
-      mutex.unlock();
+      // A caller that passed threadLock = false holds the lock and releases it
+      if (threadLock)
+        mutex.unlock();
       return ringNeedsFree;
     }
    #else
@@ -151,13 +154,18 @@ namespace occa {
      #endif
       typename entryRingMap_t::iterator it = rings.find(entry);
       if (it != rings.end()) {
-        ring_t<entry_t> &ring = it->second;
+        // Copy: the map entry is erased before the ring is looked at again
+        ring_t<entry_t> ring = it->second;
+       #if OCCA_THREAD_SHARABLE_ENABLED
         ring.removeRef(entry, false);
+       #else
+        ring.removeRef(entry);
+       #endif
         rings.erase(it);
         // Change key if head changed
         if (ring.head &&
             ((entry_t*) ring.head != entry)) {
-          rings[ring.head] = ring;
+          rings[(entry_t*) ring.head] = ring;
         }
 
       } else {
